@@ -50,6 +50,7 @@ def base_env(extra=None):
     env["PYTHONPATH"] = REPO + os.pathsep + VERIF
     env["PYTHONDONTWRITEBYTECODE"] = "1"
     env["PYTHONHASHSEED"] = "0"
+    env["PYTHONWARNINGS"] = "ignore::SyntaxWarning"
     env.pop("SIEVELIB_VERIF", None)
     if extra:
         env.update(extra)
